@@ -210,6 +210,23 @@ fn faults_for(rs: &RefSpec, doc: &Vec<Node>, only_oversized: bool) -> Vec<Fault>
             }
         }
     }
+    // (2b) a GLOBAL element of the specification outside its depth range (a bounded placeholder such as (1-) or
+    // (1-2)): a binary global can stand in for any element of the same id length, whatever it contained
+    for li in 0..(if only_oversized { 0 } else { nodes }) {
+        let l = &lay0[li];
+        let first_non_global = lay0.iter().position(|x| !rs.is_global(x.id)).unwrap_or(usize::MAX);
+        if li <= first_non_global {
+            continue;
+        }
+        let prefix = flat_index_of(doc, &lay0, li);
+        let idlen = id_bytes(l.id).len();
+        let chain: Vec<u64> = chain_of(&lay0, li).iter().map(|x| x.1).collect();
+        for g in rs.elems.iter().filter(|e| rs.is_global(e.id) && e.ty == Ty::B && id_bytes(e.id).len() == idlen && !rs.allowed(e.id, &chain)) {
+            let mut b = bytes0.clone();
+            b[l.tag_start..l.tag_start + idlen].copy_from_slice(&id_bytes(g.id));
+            out.push(Fault { class: Class::Hier, bytes: b, prefix, pos: l.tag_start, id: g.id, size: None, what: format!("id of node {} replaced by the global {} (outside its depth range under {:x?})", li, g.name, chain), want: flat0.clone(), lay: vec![] });
+        }
+    }
     // (3) size bumped past the parent's end: re-encode with a 2-byte size field on the victim, then patch it
     for li in 0..nodes {
         let l0 = &lay0[li];
@@ -423,7 +440,7 @@ pub fn run(ctx: &mut Ctx) {
     let rs = v_refspec();
     crate::spec::assert_spec_matches::<V>(&rs);
     let n = ctx.tier.pick(5, 6);
-    ctx.meta("rule", "cases: (input, tolerance subset, size limit). (a) every known-size document of T∘E with one injected fault of each class at every element (unknown id of the same length; specification id of the same length/kind not allowed there; size bumped one byte past the parent's end; declared size above the limit at root level; the oversize fault also through unknown-size masters lying between the child and the known-size ancestor) under all 8 tolerance subsets: not tolerated => exactly the items before the fault, then that class's error kind with the element's offset/id/size (another applicable class accepted); tolerated => that kind never occurs and the parse proceeds; and the same input parsed after allow_errors(E) followed by allow_errors(A), for every other subset E, equals the parse under allow_errors(A) alone; every oversize fault also behind a run of junk (1, 3, 17 bytes, at every earlier tag boundary where the next tag still fits) that is recovered from with try_recover(), capacities {default,16}, whole and 1-byte reads: the items in between, then OversizedChild at the shifted offset. (b) every Σ string up to length n, every document and every single mutation x 8 subsets x limits {default, 5, none}: no raw tag unless unknown ids are tolerated, no error kind of a tolerated class, no size-limit error once the limit is removed, and for inputs starting at a root element the strict Ok items are a prefix of the Ok items under every other subset; header-only streams declaring > 4 GB are rejected with InvalidTagSize under every subset while the limit is untouched. Non-trivial: inputs on which two configurations disagree, and all injected faults.");
+    ctx.meta("rule", "cases: (input, tolerance subset, size limit). (a) every known-size document of T∘E with one injected fault of each class at every element (unknown id of the same length; specification id of the same length/kind not allowed there; a global element outside its depth range; size bumped one byte past the parent's end; declared size above the limit at root level; the oversize fault also through unknown-size masters lying between the child and the known-size ancestor) under all 8 tolerance subsets: not tolerated => exactly the items before the fault, then that class's error kind with the element's offset/id/size (another applicable class accepted); tolerated => that kind never occurs and the parse proceeds; and the same input parsed after allow_errors(E) followed by allow_errors(A), for every other subset E, equals the parse under allow_errors(A) alone; every oversize fault also behind a run of junk (1, 3, 17 bytes, at every earlier tag boundary where the next tag still fits) that is recovered from with try_recover(), capacities {default,16}, whole and 1-byte reads: the items in between, then OversizedChild at the shifted offset. (b) every Σ string up to length n, every document and every single mutation x 8 subsets x limits {default, 5, none}: no raw tag unless unknown ids are tolerated, no error kind of a tolerated class, no size-limit error once the limit is removed, and for inputs starting at a root element the strict Ok items are a prefix of the Ok items under every other subset; header-only streams declaring > 4 GB are rejected with InvalidTagSize under every subset while the limit is untouched. Non-trivial: inputs on which two configurations disagree, and all injected faults.");
     ctx.meta("bounds", &format!("Σ* length <= {}; documents <= {} elements; all single faults / mutations", n, ctx.tier.pick(4, 5)));
     ctx.meta("assumptions", "HierarchyError carries no position: its found_tag_id is compared instead");
     for c in ["fault_Oversized_through_unknown_size_master", "fault_Id_strict", "fault_Id_tolerated", "fault_Hier_strict", "fault_Hier_tolerated", "fault_Oversized_strict", "fault_Oversized_tolerated", "fault_Limit", "prefix_comparisons", "inputs_on_which_configurations_disagree", "default_limit_rejections", "reconfigured_parses", "fault_behind_a_recovery"] {
